@@ -110,6 +110,21 @@ pub fn run_property(prop: &str, tier: &str, threads: usize, budget: &Budget, fin
         bfs(&env, report, &share, Roots::Seeds, d, props, true);
         return;
     }
+    if std::env::var("LSVERIF_HOSTED_PLAN").is_ok_and(|p| p == "big") {
+        // texts around the largest length a heap handle stores inline (32-bit targets only)
+        let d: usize = std::env::var("LSVERIF_DEPTH").ok().and_then(|s| s.parse().ok()).unwrap_or(1);
+        report.rule = format!("big-length exploration: every sequence of at most {d} operations (push, push_str, pop, three truncations, clear, insert, remove, two reservations, two shrinks, drop, clone, clone_from) on two slots from {} roots (texts of B-2..=B+2 bytes; buffers of capacity B, B+1, B+3 holding nothing, 10 bytes, B-1 bytes or capacity-many bytes; B = {} is the largest length a heap handle stores in its own second word), next to a String model; oracles of {prop}: outcome, text, length, capacity, exact shrink, every block released once with its layout, nothing left allocated; distinct = distinct (root kind, last operation)", crate::big::roots().len(), crate::big::B);
+        report.bounds.push(format!("target: {} bit, {} endian{}", usize::BITS, if cfg!(target_endian = "big") { "big" } else { "little" }, if std::env::var("LSVERIF_MIRI").is_ok() { " (executed by Miri)" } else { "" }));
+        if !crate::big::applicable() {
+            report.bounds.push("not applicable on this target: B = 2^56 - 2 cannot be reached".into());
+            return;
+        }
+        let stats = ProbeStats::default();
+        let (n, total) = crate::big::sweep(static_prop(prop), findings, &stats, d, env.part);
+        report.bounds.push(format!("{n} of {total} cases executed by this part"));
+        report.add_probe(stats.to_json("big-length", 0, true));
+        return;
+    }
     if std::env::var("LSVERIF_MIRI").is_ok() && prop != "C20" {
         // Miri-hosted run of any property: the wide graph to the given depth with that
         // property's oracles (the interpreter is ~10^4 times slower than native code)
@@ -479,6 +494,11 @@ fn fault_pass(env: &Env, report: &mut Report, prof: &Profile, depth: usize) {
     report.add_probe(stats.to_json(&format!("allocation-refusal/{}", prof.name), done, complete));
 }
 
+pub fn static_prop(prop: &str) -> &'static str {
+    const ALL: [&str; 20] = ["C01", "C02", "C03", "C04", "C05", "C06", "C07", "C08", "C09", "C10", "C11", "C12", "C13", "C14", "C15", "C16", "C17", "C18", "C19", "C20"];
+    ALL.iter().find(|p| **p == prop).copied().unwrap_or("C00")
+}
+
 pub fn profile_by_name(name: &str) -> Option<Profile> {
     Some(match name {
         "wide" => profiles::wide(Form::Plain),
@@ -498,7 +518,9 @@ pub fn reproduce(prop: &str, sig: &str, profile: &str, history: &[String], extra
     let stats = ProbeStats::default();
     let heap_as = if prop == "C03" { Some("C03") } else { None };
     let iso_as = if prop == "C02" { Some("C02") } else { None };
-    if profile == "sweep" {
+    if profile == "big" {
+        crate::big::replay(static_prop(prop), &findings, extra, verbose)?;
+    } else if profile == "sweep" {
         let sp = sweeps::sweep_profile();
         let scx = SweepCtx { prof: &sp, findings: &findings, stats: &stats };
         let threads = std::thread::available_parallelism().map(|n| n.get()).unwrap_or(4);
